@@ -72,6 +72,10 @@ func c18Gen(t *rapid.T) c18Case {
 		default:
 			ops[i] = c18Op{"discardall", 0}
 		}
+		if rapid.IntRange(0, 14).Draw(t, "reattach") == 0 {
+			// the reading process detaches from the ring and attaches again (a restart of the reader): what it had not read is still there
+			ops[i] = c18Op{"reattach", 0}
+		}
 		if rapid.IntRange(0, 24).Draw(t, "recreate") == 0 {
 			// the writing process goes away without unlinking and a new one creates the ring again under the same names
 			ops[i] = c18Op{"recreate", rapid.IntRange(0, 1).Draw(t, "reopen")}
@@ -97,6 +101,7 @@ func c18Run(c c18Case) (v vVerdict) {
 	var W, R uint64 // positions counted from the last Create
 	var salt uint64 // makes the byte pattern of each life of the ring different
 	recreated := false
+	reattached := false
 	size := uint64(c.Size)
 	wrapped, fullOrEmpty, everData := false, false, false
 	checkRead := func(step int, what string, data []byte) *vVerdict {
@@ -194,6 +199,17 @@ func c18Run(c c18Case) (v vVerdict) {
 			if uint64(len(cp)) != avail {
 				return vFailf("readall-short", "step %d ReadAll returned %d of %d readable", step, len(cp), avail)
 			}
+		case "reattach":
+			if err := rd.Close(); err != nil {
+				return vFailf("reattach-error", "step %d: Close of the reading end: %v", step, err)
+			}
+			rd, _ = NewRingBuffer(name+"_raw", name+"_desc")
+			if err := rd.Open(); err != nil {
+				return vFailf("reattach-error", "step %d: Open after Close: %v", step, err)
+			}
+			if W > R {
+				reattached = true
+			}
 		case "recreate":
 			// A ring that Create has just returned is empty, whatever an earlier life left in the shared memory.
 			wr.Close()
@@ -275,6 +291,9 @@ func c18Run(c c18Case) (v vVerdict) {
 	}
 	if recreated {
 		v.Classes = append(v.Classes, "recreated-after-use")
+	}
+	if reattached {
+		v.Classes = append(v.Classes, "reader-reattached-with-unread-data")
 	}
 	for _, op := range c.Ops {
 		if op.Op == "discard" {
